@@ -1167,7 +1167,7 @@ def emit_ins(em, fc, lb, ins, L, phi_moves):
             else:
                 # LLVM pointer relational compare = address compare without UB (null < null is simply false)
                 o = ICMP.get(ins.pred) or ICMPS[ins.pred]
-                L.append('  %s = (u1)((u64)%s %s (u64)%s);' % (d, a, o, b))
+                L.append('  %s = (u1)VF_PCMP(%s, %s, %s);' % (d, a, o, b))
         elif ins.pred in ICMP:
             L.append('  %s = (u1)(%s %s %s);' % (d, a, ICMP[ins.pred], b))
         else:
